@@ -55,7 +55,7 @@ SizeOf(k) == IF k \in Keys THEN KeySize(k)
              ELSE LET pi == CHOOSE pi \in Parents \X {0, 1} : ChildKey(pi[1], pi[2]) = k IN ChildSize(pi[1], pi[2])
 
 Idle == [t |-> "", k |-> "", pc |-> "", rel |-> -1, off |-> -1, src |-> -1, dabs |-> -1, doff |-> -1,
-         bad |-> "", child |-> -1, ks |-> <<>>, t0 |-> 0, left |-> 0, mode |-> "", miss |-> {}, q0 |-> -1]
+         bad |-> "", child |-> -1, ks |-> <<>>, t0 |-> 0, left |-> 0, mode |-> "", miss |-> {}, q0 |-> -1, pre |-> {}]
 
 (***************************************************************************)
 (* Data plane                                                              *)
@@ -102,7 +102,10 @@ PopFrontM(Sx) == Sx
 (* Bookkeeping of steps and completions                                    *)
 (***************************************************************************)
 Completion(c, o, res, what) == [p |-> c, op |-> o.t, k |-> o.k, ks |-> o.ks, res |-> res, what |-> what,
-                                abs |-> o.src, q0 |-> o.q0]
+                                abs |-> o.src, q0 |-> o.q0, pre |-> o.pre]
+
+\* keys in K were just touched successfully: operations in flight started before that touch ended
+MarkTouched(opsf, K) == [c \in Clients |-> IF opsf[c] = Idle THEN Idle ELSE [opsf[c] EXCEPT !.pre = @ \cup K]]
 
 Record(step, comps) ==
     /\ done' = comps
@@ -227,7 +230,7 @@ GetConsume(c) ==
        /\ pins' = u[1] /\ S' = u[2]
        /\ maxq' = IF good THEN maxq ELSE Max(maxq, o.src)
        /\ touch' = IF good THEN [touch EXCEPT ![o.k] = o.t0] ELSE touch
-       /\ ops' = [ops EXCEPT ![c] = Idle]
+       /\ ops' = MarkTouched([ops EXCEPT ![c] = Idle], IF good THEN {o.k} ELSE {})
        /\ Record(RelStep("consume:" \o c, 1),
                  <<Completion(c, o, IF good THEN "Data" ELSE "Integrity", IF good THEN what ELSE "")>>)
     /\ UNCHANGED <<exts, index, rlock, nops, ncorrupt, goodPut>>
@@ -250,7 +253,7 @@ GetRConsume(c) ==
        /\ index' = IF good /\ ~gone /\ o.dabs >= S2.released THEN IndexPut(index, S2, o.k, loc) ELSE index
        /\ maxq' = IF good THEN maxq ELSE Max(maxq, o.src)
        /\ touch' = IF good /\ ~gone THEN [touch EXCEPT ![o.k] = o.t0] ELSE touch
-       /\ ops' = [ops EXCEPT ![c] = Idle]
+       /\ ops' = MarkTouched([ops EXCEPT ![c] = Idle], IF good /\ ~gone THEN {o.k} ELSE {})
        /\ Record(RelStep("consume:" \o c, 1),
                  <<Completion(c, o, IF ~good THEN "Integrity" ELSE IF gone THEN "Internal" ELSE "Data",
                               IF good /\ ~gone THEN what ELSE "")>>)
@@ -274,7 +277,7 @@ FmStart(c, ks0) ==
                    ELSE <<ks[CHOOSE i \in needI : TRUE]>>
            o == [Idle EXCEPT !.t = "Fm", !.ks = ks, !.t0 = S.allocs] IN
        IF need = <<>>
-       THEN /\ ops' = ops
+       THEN /\ ops' = MarkTouched(ops, {ks[i] : i \in idxs} \ missing)
             /\ touch' = [k \in AllKeys |-> IF k \in {ks[i] : i \in idxs} \ missing THEN S.allocs ELSE touch[k]]
             /\ Record(StartStep(c, "Fm", "", [ks |-> ks]), <<Completion(c, o, "OK", missing)>>)
        ELSE /\ ops' = [ops EXCEPT ![c] = [o EXCEPT !.pc = "fmrefresh", !.mode = need, !.miss = missing]]
@@ -324,7 +327,7 @@ FmRefresh(c) ==
            st == FmLoop(st0, o.mode, 1) IN
        /\ st.S.released + NumLive(st.S) - 1 <= MaxAbs
        /\ S' = st.S /\ exts' = st.exts /\ index' = st.index /\ maxq' = st.maxq
-       /\ ops' = [ops EXCEPT ![c] = Idle]
+       /\ ops' = MarkTouched([ops EXCEPT ![c] = Idle], IF st.err = "" THEN {ks[i] : i \in 1..Len(ks)} \ st.missing ELSE {})
        /\ touch' = IF st.err = ""
                    THEN [k \in AllKeys |-> IF k \in {ks[i] : i \in 1..Len(ks)} \ st.missing THEN o.t0 ELSE touch[k]]
                    ELSE touch
@@ -514,13 +517,15 @@ C01Reads ==
 \* C08 (and C03): an acknowledged upload is readable at the moment it is acknowledged
 AckReadable ==
     \A d \in Range(done) : (d.op = "Put" /\ d.res = "OK") => Lookup(index, S, d.k) # NoLoc
-\* C05, observably: a key reported absent although it was touched successfully fewer than
-\* old+1 allocations ago (touch = allocation count at the start of the touching call)
+\* C05, observably: a key reported absent by a call that was started after a successful touch
+\* of it had ended, fewer than old+1 allocations after that touch started
 C05Step ==
     \A d \in Range(done') :
         (ncorrupt' = 0) =>
-            /\ (d.op = "Get" /\ d.res = "NotFound") => (touch[d.k] < 0 \/ S'.allocs - touch[d.k] >= DesOld + 1)
-            /\ (d.op = "Fm" /\ d.res = "OK") => \A k \in d.what : (touch[k] < 0 \/ S'.allocs - touch[k] >= DesOld + 1)
+            /\ (d.op = "Get" /\ d.res = "NotFound" /\ d.k \notin d.pre) =>
+                   (touch[d.k] < 0 \/ S'.allocs - touch[d.k] >= DesOld + 1)
+            /\ (d.op = "Fm" /\ d.res = "OK") =>
+                   \A k \in d.what \ d.pre : (touch[k] < 0 \/ S'.allocs - touch[k] >= DesOld + 1)
 \* C08, observably: an operation invoked after corruption was detected in block q0 is not
 \* served from a block <= q0
 C08Step == \A d \in Range(done') : d.res = "Data" => d.abs > d.q0
